@@ -27,9 +27,12 @@ def gen_obo_scn_c14f(Scn, rng, sid):
         si += 1
         sc.sessions[si] = dict(user=u)
     roots = []
+    slow_tail = rng.random() < 0.3
     for _ in range(rng.randint(1, 2)):
         si += 1
         sc.sessions[si] = dict(user=root, root=1)
+        if slow_tail and not roots:
+            sc.sessions[si]["cap"] = 2      # 2-slot send queue: dropped as a slow consumer in the tail below
         roots.append(si)
     att = {}
     alive = set(sc.sessions)
@@ -71,6 +74,8 @@ def gen_obo_scn_c14f(Scn, rng, sid):
             s = rng.choice(sorted(alive))
             if rng.random() < 0.7 and [x for x in roots if x in alive]:
                 s = rng.choice([x for x in roots if x in alive])
+            if slow_tail and s == roots[0]:
+                continue        # kept for the slow-consumer tail
             alive.discard(s)
             for key in [key for key in att if key[0] == s]:
                 att.pop(key)
@@ -86,7 +91,33 @@ def gen_obo_scn_c14f(Scn, rng, sid):
             sc.bursts.append([line])
     # tail (laws only, the model comparison stops before it): a member whose user a root session is attached as
     # unsubscribes ({leave unsub} -> Topic.evictUser detaches every session attached as that user, the root one included)
-    if rng.random() < 0.3:
+    if slow_tail and roots[0] in alive:
+        # tail (laws only): the root session with the 2-slot queue, attached on behalf of a member, stops reading; a member
+        # publishes 3-4 messages: the topic drops the root session as a slow consumer (unreg -> handleLeaveRequest)
+        R = roots[0]
+        ks = [k for k in sc.topics if k not in deleted]
+        pubs = [x for x in sorted(alive) if x not in roots]
+        if ks and pubs:
+            k = rng.choice(ks)
+            o = rng.choice(pubs)
+            pre = []
+            if (R, k) not in att:
+                rid += 1
+                att[(R, k)] = rng.choice(regular)
+                pre.append(["q %d r%d sub %d 0 obo=%d" % (R, rid, k, att[(R, k)])])
+            if (o, k) not in att:
+                rid += 1
+                att[(o, k)] = sc.sessions[o]["user"]
+                pre.append(["q %d r%d sub %d" % (o, rid, k)])
+            sc.bursts += pre
+            lines = ["i stall %d" % R]
+            for _ in range(rng.randint(3, 4)):
+                rid += 1
+                lines.append("q %d r%d pub %d" % (o, rid, k))
+            sc.bursts.append(lines)
+            sc.bursts.append(["i unstall %d" % R])
+            rid += 1
+    elif rng.random() < 0.3:
         ks = [k for k in sc.topics if k not in deleted]
         us = [u for u in regular if u in [sc.sessions[s]["user"] for s in alive if s not in roots]]
         if ks and us:
@@ -149,6 +180,8 @@ def obo_model_lines(sc):
     att = {}
     for b in sc.bursts:
         w = b[0].split()
+        if w[0] != "q":
+            break       # slow-consumer tail: judged by the laws only
         s, kind = int(w[1]), w[3]
         obo = [int(x[4:]) for x in w if x.startswith("obo=")]
         if kind == "sub":
